@@ -706,6 +706,16 @@ func (vc *VC) callByContract(st *State, spec *FuncSpec, callee *types.Func, sig 
 		st.dead = true
 	}
 	vc.usedSpecs[spec.Pkg+"::"+spec.Key] = true
+	if vc.quiet == 0 && vc.pure == 0 && vc.dry == 0 && !vc.callCovered[spec.Key] && (len(spec.Ensures) > 0 || len(spec.Promises) > 0) && spec.Opts["noreturn"] != "true" {
+		// vacuity: the assumed contract of the callee must not contradict what is known at the call (a contradictory
+		// contract would make everything after the call provable). Checked once per callee and function: the facts
+		// after the call must be satisfiable unless the facts before it already were not (dead path).
+		vc.callCovered[spec.Key] = true
+		if o := vc.oblige(st, "cover-call", "the contract of "+spec.Key+" is consistent with the state at its call in "+vc.fi.Key, vc.pos(call), "false", nil); o != nil {
+			o.Cover = true
+			o.PreFacts = append([]string(nil), pre.facts...)
+		}
+	}
 	if vc.quiet == 0 && vc.pure == 0 {
 		cr := map[string]Term{}
 		for i, r := range rets {
